@@ -77,7 +77,6 @@ func (C11) Gen(t *tape.Tape, tier string) any {
 	sc.DstW.WriteBufferSize = -1
 	if t.Chance(1, 3) {
 		gen.GenBloom(t, sh, &sc.DstW)
-		sc.DstW.BloomDeferred = false
 	}
 	sc.SameOpts = t.Bool()
 	if sc.SameOpts {
